@@ -461,6 +461,7 @@ def Start.resets (j : Nat) : Start → Bool
 def Label.resets (j : Nat) : Label → Bool
   | .start _ st => st.resets j
   | .step _ => false
+  | .truncSnap _ => false
 
 structure Inv1 (j : Nat) (s : Sys) (e : Nat) : Prop where
   range : EntRange s.store j e
@@ -598,6 +599,13 @@ theorem inv1_exec {j : Nat} {s : Sys} {e : Nat} (l : Label) (h : Inv1 j s e) (hl
     ∃ e', Inv1 j (s.exec l) e' ∧ e ≤ e' ∧ headOf s.store j ≤ headOf (s.exec l).store j ∧
       (∀ n v, s.store (.ent j n) = some v → (s.exec l).store (.ent j n) = some v) := by
   cases l with
+  | truncSnap j' =>
+    simp only [Sys.exec]
+    refine ⟨e, ?_, Nat.le_refl _, ?_, ?_⟩
+    · exact inv1_quiet h (by simp [Store.del]) (by intro n; simp [Store.del]) (Nat.le_refl _) (fun c => Or.inl rfl)
+        (fun c sl => h.cache c sl) (fun c p hp => h.noreset c p hp) (fun c n hc => hc)
+    · rw [headOf_congr (s.store) (s.store.del (.snap j')) j (by simp [Store.del])]; exact Nat.le_refl _
+    · intro n v hv; simpa [Store.del] using hv
   | start c st =>
     have hsum := start_summary s c st j (by simpa [Label.resets] using hl) h.alloc
     simp only [Sys.exec]
@@ -806,6 +814,7 @@ theorem noReset_zero (ls : List Label) : NoReset 0 ls := by
   cases l with
   | start c st => cases st <;> simp [Label.resets, Start.resets]
   | step c => rfl
+  | truncSnap j' => rfl
 
 theorem inv1_run {j : Nat} (ls : List Label) : ∀ {s : Sys} {e : Nat}, Inv1 j s e → NoReset j ls →
     ∃ e', Inv1 j (s.run ls) e' ∧ e ≤ e' ∧ headOf s.store j ≤ headOf (s.run ls).store j ∧
@@ -900,6 +909,9 @@ theorem wedged_exec {j : Nat} {s : Sys} {e c0 : Nat} (l : Label) (h : Wedged j s
     | none => rfl
     | some v => rw [hx] at h1; simp at h1; omega
   cases l with
+  | truncSnap j' =>
+    simp only [Sys.exec]
+    exact ⟨headOf_congr _ _ _ (by simp [Store.del]), by simpa [Store.del] using hnone, h.who⟩
   | start c st =>
     have hsum := start_summary s c st j (by simpa [Label.resets] using hl) h.inv.alloc
     simp only [Sys.exec]
